@@ -276,6 +276,13 @@ def drive(part, tier, seed):
             sds = [(shapes_[int(rng.integers(0, len(shapes_)))], dtypes_[int(rng.integers(0, len(dtypes_)))]) for _ in range(3)]
             trees = [random_tree(rng, c % 4, sds) for _ in range(B)]
             tree_events(f"rand{c}", trees, rng, evs)
+            # the same tree OBJECT at several positions of the list (a saved state revisited, a default element repeated):
+            # adjacent runs and non-adjacent repeats; position i of the stack is element i of the list, whatever its identity
+            if B >= 2 and c % 2 == 0:
+                a, b = trees[0], trees[1]
+                cc = trees[2] if B >= 3 else b
+                for pat_name, pat in (("aba", [a, b, a]), ("abcab", [a, b, cc, a, b]), ("bbab", [b, b, a, b]), ("aabb", [a, a, b, b])):
+                    tree_events(f"rand{c}.repeat_{pat_name}", pat, rng, evs)
         eq_events(rng, evs, 40 if tier == "quick" else 400)
     else:
         from harness.lib import catalog
@@ -289,6 +296,7 @@ def drive(part, tier, seed):
                 tree_events(f"{name}.state.B{B}", [r[0] for r in rs], rng, evs)
                 if B == 3:
                     tree_events(f"{name}.timestep.B{B}", [r[1] for r in rs], rng, evs)
+                    tree_events(f"{name}.state.revisit", [rs[0][0], rs[1][0], rs[0][0], rs[2][0], rs[1][0]], rng, evs)
     return evs
 
 
